@@ -258,6 +258,11 @@ func HandleSetFileInfo(cc *hotline.ClientConn, t *hotline.Transaction) (res []ho
 		return res
 	}
 
+	// The file root itself cannot be commented or renamed: its info fork would be written outside the root.
+	if fullFilePath == filepath.Clean(cc.FileRoot()) {
+		return cc.NewErrReply(t, "Cannot modify the file root.")
+	}
+
 	fi, err := cc.Server.FS.Stat(fullFilePath)
 	if err != nil {
 		return res
@@ -349,6 +354,11 @@ func HandleDeleteFile(cc *hotline.ClientConn, t *hotline.Transaction) (res []hot
 	fullFilePath, err := hotline.ReadPath(cc.FileRoot(), filePath, fileName)
 	if err != nil {
 		return res
+	}
+
+	// The file root itself cannot be deleted: that would also remove fork side-files that live outside the root.
+	if fullFilePath == filepath.Clean(cc.FileRoot()) {
+		return cc.NewErrReply(t, "Cannot delete the file root.")
 	}
 
 	hlFile, err := hotline.NewFileWrapper(cc.Server.FS, fullFilePath, 0)
